@@ -125,6 +125,8 @@ pub enum Ev {
     PskProbe { psk: B, psk_id: B },
     /// raw open with arbitrary bytes on receiver r (no model record involved)
     RawOpen { r: usize, ct: B, aad: B, tag: Option<B> },
+    /// single-shot open with explicit (possibly hostile) inputs, compared with setup_receiver + open
+    SingleShotOpenRaw { cfg: Cfg, kr: usize, ks: Option<usize>, enc: EncSrc, ct: B, aad: B, tag: Option<B> },
     /// C18: event `ev` of world `w`, executed on worker thread `t` (token passing: exactly one worker
     /// runs at any time, the others are parked)
     On { w: usize, t: usize, inner: Box<Ev> },
@@ -157,6 +159,7 @@ impl Ev {
             Ev::PskProbe { .. } => "PskProbe",
             Ev::RawOpen { .. } => "RawOpen",
             Ev::On { .. } => "On",
+            Ev::SingleShotOpenRaw { .. } => "SingleShotOpenRaw",
         }
     }
 }
